@@ -68,6 +68,9 @@ type Exec struct {
 	// MaxSteps bounds the number of decisions.
 	MaxSteps int
 
+	// Observer, if set, sees every hooked site of every goroutine (monitors); it must not block.
+	Observer func(site string, obj any, a int64, b bool)
+
 	aborted  bool
 	Deadlock bool
 	Diverged string // replay divergence description (hard error)
@@ -135,6 +138,9 @@ func (th *Thread) Done() bool { th.mu.Lock(); defer th.mu.Unlock(); return th.do
 
 // hook is installed as the litefs verif hook for the duration of an execution.
 func (e *Exec) hook(site string, obj any, a int64, b bool) {
+	if e.Observer != nil {
+		e.Observer(site, obj, a, b)
+	}
 	v, ok := e.byGoid.Load(goid())
 	if !ok {
 		return // background goroutine: runs freely between points
